@@ -371,6 +371,7 @@ func (p *Proxy) maybeCreateSessionUnlocked(version primitive.ProtocolVersion, ke
 			return nil, err
 		}
 
+		vhook("sessions.store", p, keyspace)
 		p.sessions[key] = sess
 		return sess, nil
 	}
